@@ -169,8 +169,18 @@ func RunOne(t *testing.T, e Engine, cfg RunConfig, sc any) (res *RunResult) {
 	// Two collections, not one: the second also empties the victim caches of every sync.Pool, so that no pooled object of
 	// the library outlives the bubble it was used in (the runtime refuses a WaitGroup or a timer that crosses bubbles, and a
 	// real process has no bubbles to cross).
-	runtime.GC()
-	runtime.GC()
+	// (Engines whose runs are tiny and touch no pooled objects of the library - pure model comparisons, single calls on
+	// a fake clock - say so with LightRuns and get the pair of collections every 64th run: millions of runs, each paying
+	// for two collections, took twice as long.)
+	gcEvery := 1
+	if l, ok := e.(interface{ LightRuns() bool }); ok && l.LightRuns() {
+		gcEvery = 64
+	}
+	if runsSinceGC++; runsSinceGC >= gcEvery {
+		runsSinceGC = 0
+		runtime.GC()
+		runtime.GC()
+	}
 	oldGC := debug.SetGCPercent(-1)
 	oldLimit := debug.SetMemoryLimit(3 << 30)
 	defer func() {
@@ -182,6 +192,8 @@ func RunOne(t *testing.T, e Engine, cfg RunConfig, sc any) (res *RunResult) {
 	})
 	return res
 }
+
+var runsSinceGC = 1 << 30 // the first run of a process always starts after a collection
 
 func watchdog(stop chan struct{}, cfg RunConfig, d time.Duration) {
 	select {
